@@ -71,6 +71,26 @@ CHECKS = {
         "units": [U("props/run", "TestRunSemantics", (700, 14), (12000, 15), env={"VERIF_STATS_PROP": "C03"})],
         "floors": {"quick": {"disabled-true": 150, "map-over-empty": 30, "chunks:0": 100, "chunks:11": 50}},
     },
+    "C09": {
+        "level": "exploration",
+        "engine": "pure",
+        "technique": "property-based testing (rapid): generated programs printed under random layouts / comment placements, checked by re-parse, structural AST equality, comment multiset, fixed point, call-graph equality; include-expanded rendering recompiled; native fuzzing in the thorough tier",
+        "level_text": ("Generated well-typed programs (all literal spellings incl. exponents, extreme numbers, escapes, non-ASCII; resources; help strings; src strings with arguments, quotes and "
+                       "backslashes; both modifier syntaxes; split / split using; wildcard bindings) printed with random whitespace, comments before every kind of element and, separately flagged, "
+                       "dangling comments. Oracles: the formatted text parses; a reflective AST comparison (ignoring locations, comment attachment, call order, int-vs-integral-float spelling) finds "
+                       "the same program; compiled views are EquivalentCall both ways with identical call-graph JSON; no comment is lost, and without dangling comments each is kept exactly once and "
+                       "Format(Format(s)) == Format(s); the include-expanded rendering of a three-file diamond compiles alone to an equivalent program with the same call graph. Exploration."),
+        "level_note": "Invalid UTF-8 inside string literals is treated as outside 'source text' (covered by C08).",
+        "rule": ("rapid program generator (C01's, plus decoration) x Layout draws; non-trivial: the text has a comment, a backslash escape, an exponent or a using clause; distinct by hash of the source text. "
+                 "Include test: every case non-trivial (three files, diamond, nested directory)."),
+        "assumptions": ["AST comparison treats 1e2 and 100 as the same literal value"],
+        "units": [
+            U("props/lang", "TestC09Format", (2500, 10), (40000, 12)),
+            U("props/lang", "TestC09IncludeExpanded", (1500, 4), (20000, 4)),
+        ],
+        "fuzz": [{"pkg": "props/lang", "target": "FuzzC09", "thorough": {"seconds": 300}}],
+        "floors": {"quick": {"comments": 8000, "dangling": 2000, "old-modifiers": 3000, "include-expanded": 5000}},
+    },
     "C11": {
         "level": "exploration",
         "engine": "E1",
